@@ -62,40 +62,49 @@ def _cond_fn(test, polarity=True):
     return (lambda env: ev(test, env)) if polarity else (lambda env: not ev(test, env))
 
 
+def _walk_guards(node, stop):
+    from ..util import guards_of as _g
+    return _g(node, stop)
+
+
 def r2_r3(ctx):
     rc = require_func(ctx, "parser._reconstruct")
     sk = require_func(ctx, "parser._split_keyvals")
-    uq = [g for lst in sk.nested.values() for g in lst if g.name == "_unquote_quals"]
-    ctx.require(uq, "anchor vanished: _split_keyvals.<locals>._unquote_quals")
-    uq = uq[0]
-    ctx.touch(uq)
-    dec = [c for c in calls_in(uq.node) if norm(c.func) in ("urllib.parse.unquote", "unquote", "urllib.parse.unquote_plus")]
-    ctx.floor("R2", len(dec), 1, "percent-decoding calls")
-    ctx.ob("R2", all(norm(c.func) != "urllib.parse.unquote_plus" for c in dec), "decoding is plain percent-decoding ('+' stays '+')", func=uq,
-           sig="decoder %s" % sorted({norm(c.func) for c in dec}))
-    dg = [t for t, pol in guards_of(dec[0], uq.node)]
-    dpol = [pol for t, pol in guards_of(dec[0], uq.node)]
-    enc_if = [n for n in ast.walk(rc.node) if isinstance(n, ast.If) and any(isinstance(x, ast.Subscript) and is_name(x.value, "quoter") for x in ast.walk(n))]
-    ctx.require(len(enc_if) == 1 and len(dg) == 1, "encode/decode conditions are not single tests")
-    e_if = enc_if[0]
-    in_else = any(isinstance(x, ast.Subscript) and is_name(x.value, "quoter") for s in e_if.orelse for x in ast.walk(s))
-    try:
-        encode = _cond_fn(e_if.test, polarity=not in_else)
-        decode = _cond_fn(dg[0], polarity=dpol[0])
-        cex = truth_table(["ignore", "gff3"], encode, decode)
-        ctx.ob("R2", cex is None, "values are percent-encoded on output exactly when they are percent-decoded on input (gff3 and escapes not ignored)",
-               func=rc, sig="encode condition ≡ decode condition" if cex is None else "encode/decode conditions differ at %s" % cex)
-        want = lambda env: env["gff3"] and not env["ignore"]
-        cex2 = truth_table(["ignore", "gff3"], decode, want)
-        ctx.ob("R2", cex2 is None, "decoding applies to gff3 dialects only, unless ignore_url_escape_characters", func=uq,
-               sig="decode iff gff3 and not ignored" if cex2 is None else "decode condition wrong at %s" % cex2)
-    except ValueError as e:
-        ctx.ob("R2", False, "encode/decode conditions are over (ignore_url_escape_characters, fmt == gff3)", func=rc, sig="unreadable condition %s" % e)
-    # every value is decoded / encoded, key by key
-    ok = any(isinstance(n, ast.ListComp) and any(c is x for c in dec for x in ast.walk(n)) and norm(n.generators[0].iter) == "vals" for n in ast.walk(uq.node))
-    ctx.ob("R2", ok, "every value of every key is decoded", func=uq, sig="decoding maps over all values" if ok else "decoding does not cover every value")
-    both = [c for c in calls_in(sk.node) if is_name(c.func, "_unquote_quals")]
-    ctx.ob("R2", len(both) == 2, "both parsing paths (inferred and supplied dialect) decode", func=sk, sig="%d decode call(s) in _split_keyvals" % len(both))
+    pool = [sk] + [g for lst in sk.nested.values() for g in lst]
+    dec = []
+    for f in pool:
+        for c in calls_in(f.node):
+            d = ctx.proj.dotted(c.func, f.module, f) or ""
+            if d.startswith("urllib") and d.split(".")[-1] in ("unquote", "unquote_plus", "unquote_to_bytes"):
+                dec.append((f, c))
+    ctx.ob("R2", len(dec) >= 1, "the parser percent-decodes attribute values", func=sk, sig="%d percent-decoding call(s)" % len(dec))
+    if not dec:
+        return
+    ctx.ob("R2", all(ctx.proj.dotted(c.func, f.module, f).split(".")[-1] == "unquote" for f, c in dec), "decoding is plain percent-decoding ('+' stays '+')", func=dec[0][0],
+           sig="decoder %s" % sorted({ctx.proj.dotted(c.func, f.module, f) for f, c in dec}))
+    # decode condition: conjunction of the guards of the decode call that speak about (ignore flag, fmt); other guards
+    # (pure shortcuts such as `"%" in v`) do not decide *whether* escapes are honoured and are left out
+    def cond_of(node, fn):
+        parts = []
+        for t, pol in _walk_guards(node, fn.node):
+            try:
+                fn_ = _cond_fn(t, pol)
+                fn_({"ignore": False, "gff3": True})
+                fn_({"ignore": True, "gff3": False})
+                parts.append(fn_)
+            except ValueError:
+                continue
+        return (lambda env: all(p(env) for p in parts)), len(parts)
+    want = lambda env: env["gff3"] and not env["ignore"]
+    for f, c in dec:
+        decode, n = cond_of(c, f)
+        cex = truth_table(["ignore", "gff3"], decode, want)
+        ctx.ob("R2", cex is None and n >= 1, "decoding applies to gff3 dialects only, unless ignore_url_escape_characters", node=c, func=f,
+               sig="decode iff gff3 and not ignored" if cex is None and n >= 1 else "decode condition wrong at %s" % (cex,))
+    # encode condition on the print side is decided semantically by the printer template (every value encoded iff gff3 and not ignored)
+    from .c07 import r_printer, r_decode_layer
+    r_printer(ctx, rule="R2")
+    r_decode_layer(ctx, rule="R2")
     # ---- R3 the encoder
     q = require_func(ctx, "parser.Quoter.__missing__")
     b = [p for p in q.params if p != "self"][0]
@@ -125,17 +134,7 @@ def r2_r3(ctx):
     ctx.ob("R3", ok, "exactly the characters of the encode set are encoded", func=q, sig="encoder guard %s" % g)
     els = [n for n in ast.walk(q.node) if isinstance(n, ast.Assign) and is_name(n.targets[0], "res") and is_name(n.value, b)]
     ctx.ob("R3", bool(els), "every other character is passed through unchanged", func=q, sig="pass-through branch present" if els else "no pass-through branch", nontrivial=False)
-    app = [c for c in calls_in(rc.node) if call_attr(c) == "append" and any(isinstance(x, ast.Subscript) and is_name(x.value, "quoter") for x in ast.walk(c))]
-    ok = False
-    if app:
-        a = app[0].args[0]
-        ok = isinstance(a, ast.Call) and call_attr(a) == "join" and const_str(a.func.value) == "" and isinstance(a.args[0], (ast.ListComp, ast.GeneratorExp)) \
-            and isinstance(a.args[0].elt, ast.Subscript) and is_name(a.args[0].elt.value, "quoter") and is_name(a.args[0].elt.slice, a.args[0].generators[0].target.id)
-        lp = enclosing(app[0], ast.For)
-        ok = ok and lp is not None and is_name(a.args[0].generators[0].iter, lp.target.id)
-    ctx.ob("R3", ok, "encoding is applied per character of each value", func=rc, sig="per-character encoding %s" % (norm(app[0].args[0]) if app else None))
-    keys_enc = [n for n in ast.walk(rc.node) if isinstance(n, ast.Subscript) and is_name(n.value, "quoter")]
-    ctx.ob("R3", len(keys_enc) == 1, "values (not keys) are encoded", func=rc, sig="%d quoter use(s)" % len(keys_enc), nontrivial=False)
+    # per-character application to every value (and to values only) is decided by the printer template (R2)
 
 
 def r4(ctx):
@@ -204,14 +203,13 @@ def r5_r6(ctx):
             if isinstance(n, ast.Assign) and isinstance(n.targets[0], ast.Subscript) and is_name(n.targets[0].value, "quals"):
                 n_st += 1
                 v = n.value
-                ok = (isinstance(v, ast.List) and not v.elts) or isinstance(v, ast.ListComp) or (isinstance(v, ast.Name) and _is_listcomp_name(f, v.id))
+                ok = isinstance(v, (ast.List, ast.ListComp)) or (isinstance(v, ast.Name) and _is_listcomp_name(f, v.id)) or \
+                    (isinstance(v, ast.Call) and (is_name(v.func, "list") or call_attr(v) in ("split", "copy")))
                 ctx.ob("R6", ok, "attribute values are created as lists", node=n, func=f, sig="quals[...] := %s" % norm(v)[:50])
             if isinstance(n, ast.Call) and isinstance(n.func, ast.Attribute) and isinstance(n.func.value, ast.Subscript) and is_name(n.func.value.value, "quals"):
                 ok = n.func.attr in ("append", "extend")
-                a = norm(n.args[0]) if n.args else None
-                ok = ok and ((n.func.attr == "append" and a == "val") or (n.func.attr == "extend" and a == "vals"))
-                ctx.ob("R6", ok, "values are only ever appended/extended with strings cut from the input", node=n, func=f, sig="quals[...].%s(%s)" % (n.func.attr, a))
-    ctx.floor("R6", n_st, 3, "stores into the attribute mapping")
+                ctx.ob("R6", ok, "value lists only ever grow by append/extend", node=n, func=f, sig="quals[...].%s(...)" % n.func.attr, nontrivial=False)
+    ctx.floor("R6", n_st, 1, "stores into the attribute mapping")
     rets = [n for n in ast.walk(sk.node) if isinstance(n, ast.Return) and enclosing(n, ast.FunctionDef) is sk.node]
     ok = all(isinstance(r.value, ast.Tuple) and len(r.value.elts) == 2 and norm(r.value.elts[0]) == "quals" and norm(r.value.elts[1]) == "dialect" for r in rets)
     ctx.ob("R6", ok and len(rets) >= 3, "every exit returns (mapping, dialect)", func=sk, sig="returns %s" % sorted({norm(r.value) for r in rets}))
